@@ -367,12 +367,8 @@ func (ex *Exec) store(st *PState, p Value, v Value) {
 			return
 		}
 		if q.Limb != 0 {
-			cur, ok := walk(ex.objValue(st, q.Obj), q.Path).(*Term)
-			vt, ok2 := v.(*Term)
-			if ok && ok2 && cur.isZero() && vt.isZero() {
-				return
-			}
-			fail("limb store into abstracted element (only zero-initialisation is supported)")
+			ex.storeLimb(st, q, v)
+			return
 		}
 		cur := ex.objValue(st, q.Obj)
 		st.heap.Set(q.Obj, update(cur, q.Path, v))
@@ -726,4 +722,118 @@ func (ex *Exec) storeSub(st *PState, p *PtrV, v Value) {
 		ep := ex.elemPtr(st, p.Obj, p.Path, ex.ts.Add(p.Sub.Off, ex.ts.Int64(int64(i))), len(arr.E))
 		ex.store(st, ep, av.E[i])
 	}
+}
+
+
+// storeLimb handles limb-wise initialisation of an abstracted field element from a literal
+// (e.g. a constant table entry given by its Montgomery limbs): once all limbs are known the
+// element becomes the corresponding constant of the interpretation (a small rational a/b with
+// a/b = limbs * R^-1 mod q, or an opaque named atom when there is no small reconstruction).
+func (ex *Exec) storeLimb(st *PState, q *PtrV, v Value) {
+	vt, ok := v.(*Term)
+	if !ok || !vt.IsConst() || vt.sort != SInt {
+		fail("limb store of a non-constant into an abstracted element")
+	}
+	key := fmt.Sprintf("%d%v", q.Obj.ID, q.Path)
+	buf := ex.limbBuf[key]
+	if buf == nil {
+		buf = map[int]*big.Int{}
+		ex.limbBuf[key] = buf
+	}
+	buf[q.Limb-1] = vt.ival
+	// element type: walk the object's type along the path
+	t := q.Obj.Type
+	for _, i := range q.Path {
+		switch u := t.Underlying().(type) {
+		case *types.Struct:
+			t = u.Field(i).Type()
+		case *types.Array:
+			t = u.Elem()
+		case *types.Slice:
+			t = u.Elem()
+		default:
+			fail("limb store: cannot type path")
+		}
+	}
+	arr, ok := t.Underlying().(*types.Array)
+	if !ok {
+		fail("limb store into non-array element type %s", t)
+	}
+	n := int(arr.Len())
+	allZero := true
+	for i := 0; i < n; i++ {
+		if b, has := buf[i]; has && b.Sign() != 0 {
+			allZero = false
+		}
+	}
+	cur := ex.objValue(st, q.Obj)
+	kind := ex.absKind(t)
+	if len(buf) < n {
+		// partial literal (Go omits trailing zero limbs): value so far
+		if !allZero || true {
+			val := ex.limbsToAbstract(t, buf, n, kind)
+			st.heap.Set(q.Obj, update(cur, q.Path, val))
+		}
+		return
+	}
+	val := ex.limbsToAbstract(t, buf, n, kind)
+	st.heap.Set(q.Obj, update(cur, q.Path, val))
+	delete(ex.limbBuf, key)
+}
+
+func (ex *Exec) limbsToAbstract(t types.Type, buf map[int]*big.Int, n int, kind string) *Term {
+	ts := ex.ts
+	ii, _ := basicIntInfo(t.Underlying().(*types.Array).Elem())
+	w := ii.bits
+	mont := new(big.Int)
+	for i := 0; i < n; i++ {
+		if b, has := buf[i]; has {
+			mont.Add(mont, new(big.Int).Lsh(b, uint(i)*w))
+		}
+	}
+	if mont.Sign() == 0 {
+		if kind == "real" {
+			return ts.Real(new(big.Rat))
+		}
+		return ts.Int64(0)
+	}
+	q := ex.feltModulus(t)
+	R := pow2(uint(n) * w)
+	rinv := new(big.Int).ModInverse(R, q)
+	v := new(big.Int).Mul(mont, rinv)
+	v.Mod(v, q)
+	switch kind {
+	case "felt":
+		return ts.Int(v)
+	case "real":
+		if a, b, ok := ratReconstruct(v, q); ok {
+			return ts.Real(new(big.Rat).SetFrac(a, b))
+		}
+		ex.note("field constant without small rational form: opaque atom")
+		return ts.Var("fconst!"+v.Text(62), SReal, nil, nil)
+	}
+	fail("limb literal for abstract kind %q", kind)
+	return nil
+}
+
+// ratReconstruct finds a/b = v (mod q) with |a|, |b| < 2^64 if it exists.
+func ratReconstruct(v, q *big.Int) (*big.Int, *big.Int, bool) {
+	bound := pow2(64)
+	r0, r1 := new(big.Int).Set(q), new(big.Int).Set(v)
+	t0, t1 := big.NewInt(0), big.NewInt(1)
+	for r1.Sign() != 0 && r1.Cmp(bound) >= 0 {
+		qq := new(big.Int).Quo(r0, r1)
+		r0, r1 = r1, new(big.Int).Sub(r0, new(big.Int).Mul(qq, r1))
+		t0, t1 = t1, new(big.Int).Sub(t0, new(big.Int).Mul(qq, t1))
+	}
+	if r1.Sign() == 0 || new(big.Int).Abs(t1).Cmp(bound) >= 0 {
+		return nil, nil, false
+	}
+	a, b := new(big.Int).Set(r1), new(big.Int).Set(t1)
+	if b.Sign() < 0 {
+		a.Neg(a)
+		b.Neg(b)
+	}
+	// prefer the representative of a closest to zero
+	return a, b, true
 }
